@@ -32,7 +32,7 @@ def gen_col_specs(rng, ncols, kinds=KINDS, cat_fixed=True):
         kind = rng.choice(kinds)
         nullmode = rng.choice(('none', 'some', 'some', 'all')) \
             if kind in ('f64', 'f32', 'str', 'obj', 'dt', 'cat', 'nbool',
-                        'bytes') else 'none'
+                        'bytes', 'dttz', 'json') else 'none'
         if nullmode == 'all' and kind in ('bytes', 'f64', 'f32', 'dt'):
             # all-NaN float / all-NaT chunks + data page v2 + small pages do not
             # survive a plain write->read today (C01 domain), keep them out
@@ -99,6 +99,24 @@ def _col_values(kind, nullmode, n, rng, extra):
                 for i in range(n)]
         return pd.Series(np.array(vals, dtype='datetime64[us]')
                          .astype('datetime64[ns]'))
+    if kind == 'dttz':
+        base = 1_500_000_000_000_000
+        vals = [np.datetime64('NaT') if nulls[i] else
+                np.datetime64(base + rng.randrange(-10**14, 10**14), 'us')
+                for i in range(n)]
+        return pd.Series(np.array(vals, dtype='datetime64[us]')
+                         .astype('datetime64[ns]')).dt.tz_localize(
+                             'UTC').dt.tz_convert(extra or 'Europe/Paris')
+    if kind == 'json':
+        def obj():
+            r = rng.random()
+            if r < 0.4:
+                return {'a': rng.randrange(100), 'b': [1, 'x', None]}
+            if r < 0.7:
+                return [rng.randrange(10), {'k': rng.choice(TEXT)}]
+            return {'t': rng.choice(TEXT), 'n': None}
+        vals = [None if nulls[i] else obj() for i in range(n)]
+        return pd.Series(vals, dtype='object')
     if kind == 'cat':
         labels = list(extra)
         vals = [None if nulls[i] else rng.choice(labels) for i in range(n)]
@@ -195,6 +213,8 @@ def canon_series(s):
         return [None if c < 0 else ccats[c] if c < len(ccats)
                 else ('badcode', c) for c in s.cat.codes.tolist()]
     kind = getattr(dt, 'kind', 'O')
+    if isinstance(dt, pd.DatetimeTZDtype):
+        s = s.dt.tz_convert('UTC').dt.tz_localize(None)
     if kind == 'M':
         a = s.to_numpy().astype('datetime64[ns]')
         iv = a.astype('int64').tolist()
